@@ -7,16 +7,23 @@ import re
 import core
 from core import fseq, fseqs, fbool, pseq, pseqs, guarded
 import used
+import past
+import pinlib
 import c13 as _c13
 
 PROP = "C19"
-RULE = ("exhaustive: every set of <=3 permutations of length 1-4 (6017 bases): quick search on each, each of the nine "
+RULE = ("exhaustive: every set of <=3 permutations of length 1-4 (6017 bases): quick search on each (quick tier: on every "
+        "2nd, two strategies' applies() on the others), each of the nine "
         "fast strategies' applies() on a rotating selection, reordered / repeated variants, all eight symmetric "
-        "images (quick: every 8th basis), the slow search (with the implementation's has_finite_simples verdict as an "
+        "images (quick: every 24th basis), the slow search (with the implementation's has_finite_simples verdict as an "
         "opaque input of the model line) on every 60th basis (thorough: every 8th); is_valid_extension of the eight core "
         "strategies on all permutations of length 1-6; the bases of the paper used in the test-suite; random: bases "
         "built from the needed patterns of a strategy (or a symmetric image) plus 0-3 extensions of length 3-7 that "
-        "have / narrowly miss the prescribed shape; non-trivial = at least one strategy is reported or the basis has "
+        "have / narrowly miss the prescribed shape; long elements: the same with extensions of length 9-12, 21-40, 64-70, "
+        "~200 (defects planted at the very beginning / end) and the finitely-many-simples strategy on finite classes mixing "
+        "elements of length 3-4 and 6; a quarter of the bases built from Perm objects with a past, the caller's list "
+        "changed after every search / construction, selected strategies asked after short-lived strategy objects of the "
+        "same class were dropped and collected; non-trivial = at least one strategy is reported or the basis has "
         ">=2 elements; distinct = distinct op lines")
 ASSUMPTIONS = [
     "model/implementation agreement outside the enumerated and sampled inputs is assumed",
@@ -94,8 +101,22 @@ def _hfs_chunk(bases):
 
 
 def _B(tok):
-    """the basis of a line as a list of *used* Perm objects (hashed, compared, searched with), built once per line"""
+    """the basis of a line as a list of *used* Perm objects (hashed, compared, searched with), built once per line;
+    for a deterministic quarter of the bases the objects have a longer past: used, or derived from a used object
+    through another API route (past.mkperm)"""
+    if used.sel("basis19", [tok], 4):
+        return [used.obj((i, p), lambda p=p, i=i: past.mkperm(p, i) if used.is_perm(p) and len(p) <= 410 else Perm(p))
+                for i, p in enumerate(pseqs(tok))]
     return [used.obj((i, p), lambda p=p: Perm(p), lambda o: used.warm_perm(o, 0)) for i, p in enumerate(pseqs(tok))]
+
+
+_OTHER_BASES = [((1, 2, 0, 3), (2, 0, 1, 3)), ((1, 3, 0, 2), (2, 0, 3, 1)), ((0, 1, 2),), ((1, 3, 0, 2), (1, 0, 2, 3)),
+                ((1, 2, 0, 3), (1, 0, 3, 2)), ((0, 2, 1),), ((1, 2, 0, 3), (2, 0, 1, 3), (0, 1, 2, 3)), ((2, 1, 0), (0, 1, 2))]
+
+
+def _churn(cls):
+    """short-lived strategy objects of the same class on other bases: created, asked, dropped, collected"""
+    used.churn(lambda b: cls([Perm(p) for p in b]), [lambda t: t.applies()], _OTHER_BASES)
 
 
 def _again(strats, long):
@@ -115,8 +136,13 @@ def impl(op, a):
         long = a[0] == "T"
 
         def f():
-            strats = ES.find_strategies(_B(a[2]), long)
+            lst = _B(a[2])
+            strats = ES.find_strategies(lst, long)
             res = _names(strats)
+            # the caller's list changes after the search: the returned strategy objects describe the basis searched
+            lst.append(Perm((0, 1, 2, 3, 4, 5)))
+            lst.reverse()
+            del lst[1:]
             bad = _again(strats, long)
             if bad:
                 return bad
@@ -124,15 +150,20 @@ def impl(op, a):
                 return "HFS-INPUT-STALE " + res
             return res
         r1 = guarded(f)
-        # a deterministic fifth (slow search: eighth) of the searches is run once more on the same basis objects
-        if not used.sel(op, a, 8 if long else 5):
+        # a deterministic tenth (slow search: eighth) of the searches is run once more on the same basis objects
+        if not used.sel(op, a, 8 if long else 10):
             return r1
         used.T.rewind()
         r2 = guarded(f)
         return r1 if r1 == r2 else used.unstable(r1, r2)
     if op == "applies":
         def g():
-            s = _cls(a[0])(_B(a[2]))
+            if a[0] != "FinitelyManySimplesStrategy" and used.sel(op, a, 40):
+                _churn(_cls(a[0]))
+            lst = _B(a[2])
+            s = _cls(a[0])(lst)
+            lst.append(Perm((1, 0)))            # the caller's list changes after the construction
+            lst.reverse()
             r = fbool(s.applies())
             if a[0] != "FinitelyManySimplesStrategy":
                 # the same strategy object asked again, and a second object on the same basis objects
@@ -173,7 +204,11 @@ _CONT = {}
 def _contains(s, pat):
     key = (s, pat)
     if key not in _CONT:
-        _CONT[key] = any(True for _ in _occs(pat, s))
+        if len(_CONT) > 200000:
+            _CONT.clear()
+        # long permutations: backtracking instead of all index subsets (pinlib.contains_long, an independent
+        # implementation of the same relation, checked against the subset search in c16's self-test)
+        _CONT[key] = pinlib.contains_long(s, pat, 10 ** 7) if len(s) > 10 else any(True for _ in _occs(pat, s))
     return _CONT[key]
 
 
@@ -415,9 +450,9 @@ def run(ctx):
     worker_init()
     ctx.exhaustive = True
     ctx.exhaustive_bound = ("all sets of <=3 permutations of length 1-4 (6017): quick search + one fast strategy's applies() + "
-                            "a reordered/repeated variant (quick: every 2nd basis); eight images on every %s basis; slow search on every %s "
+                            "a reordered/repeated variant (quick: the search on every 2nd basis, two strategies' applies() on the others, the variant on every 8th); eight images on every %s basis; slow search on every %s "
                             "basis; is_valid_extension of the 8 core strategies on all permutations of length 1-%d"
-                            % ("8th" if quick else "", "60th" if quick else "8th", 6 if quick else 7))
+                            % ("24th" if quick else "", "60th" if quick else "8th", 6 if quick else 7))
     # ---- corpus: paper bases from the tests, both searches, all strategies, several orders
     lines = []
     hf = list(ctx.pool.map(_hfs_chunk, [[B] for B in PAPER]))
@@ -454,18 +489,33 @@ def run(ctx):
     long_sets = []
     for idx, B in enumerate(sets):
         fb = fseqs(B)
-        lines.append("find F F %s" % fb)
+        if not quick or idx % 2 == 0:
+            lines.append("find F F %s" % fb)
         lines.append("applies %s F %s" % (FAST[idx % len(FAST)], fb))
+        if quick and idx % 2 == 1:
+            lines.append("applies %s F %s" % (FAST[(idx // 2 + 4) % len(FAST)], fb))
         if not quick:
             for n in FAST:
                 lines.append("applies %s F %s" % (n, fb))
         arr = [B[::-1], B + B[:1], B[1:] + B[:1] + B[1:]][idx % 3]
-        if not quick or idx % 2 == 0:
+        if not quick or idx % 8 == 1:
             lines.append("find F F %s" % fseqs(arr))
-        if not quick or idx % 8 == 0:
+        if not quick or idx % 24 == 0:
             lines.append("sym8find F FFFFFFFF %s" % fb)
         if idx % (60 if quick else 8) == 0:
             long_sets.append(B)
+    # the finitely-many-simples strategy on FINITE classes (a long increasing and a long decreasing element, lengths
+    # mixed: 3 next to 6, ...): its verdict is True by Erdos-Szekeres, no verdict of the implementation is needed as
+    # input.  The library's pin-word table of length 6 costs 9 s per worker: the block goes to the front of this
+    # (the longest) stream, inside one chunk, so that one worker pays once and the others work meanwhile.
+    block = []
+    for b in [((0, 1, 2), (5, 4, 3, 2, 1, 0)), ((0, 1, 2, 3), (5, 4, 3, 2, 1, 0), (1, 3, 0, 2))] + \
+            ([] if quick else [((2, 1, 0), (0, 1, 2, 3, 4, 5)), ((0, 1, 2, 3, 4, 5), (5, 4, 3, 2, 1, 0)),
+                               ((0, 1, 2, 3, 4), (5, 4, 3, 2, 1, 0), (2, 4, 0, 3, 1, 5))]):
+        block.append("applies FinitelyManySimplesStrategy T %s" % fseqs(b))
+        block.append("applies FinitelyManySimplesStrategy T %s" % fseqs(b[::-1]))
+    block.append("find T T 2,1,0;0,1,2,3,4,5")
+    lines = block + lines
     ctx.compare("exhaustive-small", lines)
     hf = []
     chunks = [long_sets[i:i + 8] for i in range(0, len(long_sets), 8)]
@@ -498,13 +548,54 @@ def run(ctx):
         r = rng.random()
         if r < 0.5:
             lines.append("find F F %s" % fseqs(B))
-        elif r < 0.85:
+        elif r < (0.93 if quick else 0.85):
             lines.append("applies %s F %s" % (name if rng.random() < 0.7 else rng.choice(FAST), fseqs(B)))
         else:
             lines.append("sym8find F FFFFFFFF %s" % fseqs(B))
     ctx.compare("random-structured", lines)
+    # ---- sizes the streams above never reach: extensions of length 9-12, 21-40, 64-70, ~200 and ~400 that have / narrowly
+    #      miss (a defect planted at the very beginning or the very end) the prescribed shape, next to the needed
+    #      patterns and to short extensions
+    def end_miss(p):
+        n = len(p)
+        i = rng.choice([0, n - 2])
+        return p[:i] + (p[i + 1], p[i]) + p[i + 2:]
+    #      (the model prunes a basis with the C01 containment model, which is exponential on long elements: searches
+    #      with elements longer than 30 are compared with the oracle only; is_valid_extension at every scale with both)
+    lines, nomodel = [], []
+    for lo, hi, cnt in ((9, 12, 260), (21, 40, 160), (64, 70, 60), (190, 210, 16), (395, 405, 6)) if quick else \
+            ((9, 12, 2600), (21, 40, 1600), (64, 70, 400), (190, 210, 60), (395, 405, 20)):
+        for _ in range(cnt):
+            name = rng.choice(CORE)
+            B = sorted(_needed(name))
+            if rng.random() < 0.15:
+                B.pop(rng.randrange(len(B)))
+            longs = []
+            for _ in range(rng.choice([1, 1, 2]) if hi <= 40 else 1):
+                q = _rand_shape_perm(rng, rng.randrange(lo, hi + 1))
+                if rng.random() < 0.2:
+                    q = end_miss(q)
+                longs.append(q)
+            B += longs
+            if rng.random() < 0.4:
+                B.append(_rand_shape_perm(rng, rng.randrange(3, 7)))
+            for q in longs:
+                lines.append("valid %s %s" % (name if rng.random() < 0.6 else rng.choice(CORE), fseq(q)))
+            g = _c13._SYMS[rng.randrange(8)]
+            B = [g(q) for q in B]
+            rng.shuffle(B)
+            r = rng.random()
+            dest = lines if max(len(q) for q in B) <= 30 else nomodel
+            if r < 0.5:
+                dest.append("find F F %s" % fseqs(B))
+            elif r < 0.95 or hi > 12:
+                dest.append("applies %s F %s" % (name if rng.random() < 0.7 else rng.choice(FAST), fseqs(B)))
+            else:
+                dest.append("sym8find F FFFFFFFF %s" % fseqs(B))
+    ctx.compare("long-elements", lines)
+    ctx.compare("long-elements-oracle-only", nomodel, use_model=False)
     # slow search with all eight images' own inputs on a few bases
-    few = [sets[rng.randrange(len(sets))] for _ in range(3 if quick else 40)]
+    few = [sets[rng.randrange(len(sets))] for _ in range(2 if quick else 40)]
     imgs = [[[_c13._SYMS[k](p) for p in B] for k in range(8)] for B in few]
     flat = [[im] for B8 in imgs for im in B8]
     hf = [h for (h,) in ctx.pool.map(_hfs_chunk, flat)]
